@@ -250,9 +250,9 @@ theorem struct1_all : (s : Stmt) → FragT s = true → Struct1 s
   | .set lv v, h => struct1_simple _ (by simp only [FragT, Bool.and_eq_true] at h; exact h.1) (by intros; simp) (by intros; simp) (by intros; simp)
   | .call f as, h => struct1_simple _ (by simpa [FragT] using h) (by intros; simp) (by intros; simp) (by intros; simp)
   | .exit, _ => struct1_simple _ rfl (by intros; simp) (by intros; simp) (by intros; simp)
-  | .put .., h => by simp [FragT] at h
-  | .delete .., h => by simp [FragT] at h
-  | .hilite .., h => by simp [FragT] at h
+  | .put m v lv, h => struct1_simple _ (by simpa [FragT] using h) (by intros; simp) (by intros; simp) (by intros; simp)
+  | .delete t, h => struct1_simple _ (by simpa [FragT] using h) (by intros; simp) (by intros; simp) (by intros; simp)
+  | .hilite t, h => struct1_simple _ (by simpa [FragT] using h) (by intros; simp) (by intros; simp) (by intros; simp)
   | .mcall .., h => by simp [FragT] at h
   | .tell .., h => by simp [FragT] at h
   | .repeatIn .., h => by simp [FragT] at h
